@@ -3643,3 +3643,415 @@ def rule_numpy_free_twin(model: Model, rule_id: str = 'C04-R11') -> RuleResult:
                "without numpy - an optional dependency - `import pane` raises NameError: nothing of the library works, and the library's own "
                "numpy-free fallbacks (broadcast_shapes) can never run")
     return r
+
+
+# ============================================================================ round 9
+
+
+def rule_no_mutable_defaults(model: Model, rule_id: str = 'C10-R19') -> RuleResult:
+    """A list / dict / set written as a parameter default is created once: whatever a call leaves in it is still there on the next
+    call (a renderer that collects the alternatives of a union into ``flat=[]`` repeats all earlier ones)."""
+    r = RuleResult(rule_id, "no function of the package has a mutable container as a parameter default", floor=1)
+    n = 0
+    for f in model.all_functions():
+        if not isinstance(f.node, ast.FunctionDef) or not f.module.name.startswith('pane.'):
+            continue
+        n += 1
+        a = f.node.args
+        for d in list(a.defaults) + [k for k in a.kw_defaults if k is not None]:
+            if isinstance(d, (ast.List, ast.Dict, ast.Set, ast.ListComp, ast.DictComp, ast.SetComp)) or (
+                    isinstance(d, ast.Call) and isinstance(d.func, ast.Name) and d.func.id in ('list', 'dict', 'set', 'defaultdict', 'OrderedDict', 'deque')):
+                # (a default that is never written into is harmless; the ones in the library are frozen objects or None)
+                r.instances += 1
+                r.analysed.add(f.qualname)
+                r.fail(f.qualname, f"parameter default `{unparse(d)[:40]}`", f.loc(d),
+                       "state survives from one call to the next: the second rendering of an error (or the second conversion) sees what the first left behind")
+    r.instances += 1
+    r.sample({'functions scanned': n})
+    r.ok()
+    return r
+
+
+def rule_text_not_from_sets(model: Model, rule_id: str = 'C08-R14') -> RuleResult:
+    """Text is produced from ordered, complete data: passing declared values or bounds through ``set()`` / ``dict.fromkeys()`` merges
+    values that compare equal (``1`` and ``True``) and forgets their order (``(1, 8)`` comes back as ``{8, 1}``)."""
+    r = RuleResult(rule_id, "expectation texts and renderers never de-duplicate or reorder what they describe through a set / dict", floor=1)
+    n = 0
+    todo: t.List[FuncInfo] = []
+    for f in model.all_functions():
+        if not isinstance(f.node, ast.FunctionDef):
+            continue
+        if f.module.name == 'pane.errors' and f.name in ('print_error', '__str__'):
+            todo.append(f)
+        elif f.module.name in ('pane.converters', 'pane.classes', 'pane.types') and re.match(r'(expected|tag_expected|obj_expected)', f.name):
+            todo.append(f)
+    for f in todo:
+        n += 1
+        for x in walk_no_nested(f.node):
+            dedupe = None
+            if isinstance(x, ast.Call) and isinstance(x.func, ast.Name) and x.func.id in ('set', 'frozenset') and x.args:
+                dedupe = x
+            if isinstance(x, ast.Call) and unparse(x.func) in ('dict.fromkeys', 'collections.OrderedDict.fromkeys', 'OrderedDict.fromkeys'):
+                dedupe = x
+            if dedupe is None:
+                continue
+            # a set that only ever becomes part of a new error node (sorted when printed) is data, not text
+            into_node = any(isinstance(a_, ast.Call) and re.search(r'ErrorNode|Error$', unparse(a_.func)) for a_ in ancestors(dedupe))
+            stored = next((a_ for a_ in ancestors(dedupe) if isinstance(a_, (ast.Assign, ast.AnnAssign))), None)
+            if stored is not None:
+                nm = unparse(stored.targets[0] if isinstance(stored, ast.Assign) else stored.target)
+                into_node = into_node or any(isinstance(c_, ast.Call) and re.search(r'ErrorNode|Error$', unparse(c_.func))
+                                             and any(unparse(a_) == nm for a_ in list(c_.args) + [k.value for k in c_.keywords]) for c_ in ast.walk(f.node))
+            sorted_ = any(isinstance(a_, ast.Call) and isinstance(a_.func, ast.Name) and a_.func.id == 'sorted' for a_ in ancestors(dedupe))
+            if into_node or sorted_:
+                continue
+            r.instances += 1
+            r.analysed.add(f.qualname)
+            r.fail(f.qualname, f"`{unparse(dedupe)[:50]}` feeds a message", f.loc(dedupe),
+                   "values that compare equal are merged (Literal[1, True] is described as '1') and the order of what is listed follows the "
+                   "hash table ('length 8-1' for a class taking 1 to 8 values)")
+    r.instances += 1
+    r.sample({'functions scanned': n})
+    r.ok()
+    return r
+
+
+def rule_locks_released_on_all_paths(model: Model, rule_id: str = 'C10-R20') -> RuleResult:
+    """A lock taken with ``acquire()`` is released in a ``finally`` (or taken with ``with``): building a converter may raise, and a
+    reentrant lock left held by the failing thread blocks every other thread at its next cache miss, for good."""
+    r = RuleResult(rule_id, "every explicit acquire() of a lock is paired with a release() in a finally clause", floor=1)
+    n = 0
+    for f in model.all_functions():
+        if not isinstance(f.node, ast.FunctionDef) or not f.module.name.startswith('pane.'):
+            continue
+        n += 1
+        for x in walk_no_nested(f.node):
+            if isinstance(x, ast.Call) and isinstance(x.func, ast.Attribute) and x.func.attr == 'acquire' and 'lock' in unparse(x.func.value).lower():
+                r.instances += 1
+                r.analysed.add(f.qualname)
+                lock = unparse(x.func.value)
+                safe = False
+                st = next((a_ for a_ in [x] + list(ancestors(x)) if isinstance(a_, ast.stmt)), None)
+                for tr in [a_ for a_ in ast.walk(f.node) if isinstance(a_, ast.Try)]:
+                    rel = any(isinstance(c_, ast.Call) and isinstance(c_.func, ast.Attribute) and c_.func.attr == 'release'
+                              and unparse(c_.func.value) == lock for s_ in tr.finalbody for c_ in ast.walk(s_))
+                    if rel and st is not None and (st.lineno <= tr.lineno):
+                        safe = True
+                if safe:
+                    r.ok()
+                else:
+                    r.fail(f.qualname, f"`{unparse(x)}` without a release in a finally clause", f.loc(x),
+                           "an exception between acquire() and release() (make_converter raises TypeError for an unsupported type) leaves the "
+                           "lock held: conversions on other threads hang at their next cache miss")
+    r.instances += 1
+    r.sample({'functions scanned': n})
+    r.ok()
+    return r
+
+
+def rule_in_names_is_a_tuple(model: Model, rule_id: str = 'C15-R10') -> RuleResult:
+    """The input names handed to ``Field`` are a tuple of names on every path: ``(name)`` for ``(name,)`` is the bare string, which
+    ``PaneConverter`` iterates character by character (every letter of the field name becomes an accepted key)."""
+    r = RuleResult(rule_id, "the input names a field is built with are a tuple (or the sequence the user gave), never a bare name", floor=1)
+    f = model.func('pane.field.FieldSpec.make_field')
+    cfg = cfg_of(model, f)
+    rd = cfg.reaching()
+    nz = Normalizer(model, f, cfg, param_map=_pm(f))
+    r.analysed.add(f.qualname)
+    rets = [n for n in cfg.live_nodes() if n.kind == 'return' and n.ast is not None and isinstance(n.ast.value, ast.Call)]
+    if not rets:
+        raise AnalysisError('make_field does not return a Field(...) call')
+
+    from ..cfg import returned_values as _rv
+
+    def leaves(e: ast.AST, at: Node, depth: int = 0, g: FuncInfo = f) -> t.List[ast.AST]:
+        grd = cfg_of(model, g).reaching()
+        if isinstance(e, ast.IfExp):
+            return leaves(e.body, at, depth, g) + leaves(e.orelse, at, depth, g)
+        if isinstance(e, ast.Name) and grd.is_local(e.id) and depth < 6:
+            ds = grd.at(at, e.id)
+            if ds and all(d.kind in ('assign', 'walrus') and d.value is not None and not d.path for d in ds):
+                return [y for d in ds for y in leaves(d.value, d.node, depth + 1, g)]
+        if isinstance(e, ast.Call) and depth < 6:
+            # a helper of the module / of the class that computes the names: what it returns
+            h = model.functions.get(model.resolve(e.func, g.module, g) or '')
+            if h is None and isinstance(e.func, ast.Attribute) and isinstance(e.func.value, ast.Name) and g.cls is not None and g.params \
+                    and e.func.value.id == g.params[0]:
+                h = model.find_method(g.cls.qualname, e.func.attr)
+            if h is not None and h.module.name == 'pane.field' and isinstance(h.node, ast.FunctionDef) and h.qualname != 'pane.field.rename_field':
+                out_: t.List[ast.AST] = []
+                for (re_, rn_) in _rv(cfg_of(model, h)):
+                    out_ += leaves(re_, rn_, depth + 1, h)
+                if out_:
+                    return out_
+        return [e]
+    for n in rets:
+        arg = next((k.value for k in n.ast.value.keywords if k.arg == 'in_names'), None)
+        if arg is None:
+            raise AnalysisError('Field(...) built without in_names=')
+        for leaf in leaves(arg, n):
+            r.instances += 1
+            form = unparse(leaf)[:60]
+            ok = isinstance(leaf, ast.Tuple) or (isinstance(leaf, ast.Call) and unparse(leaf.func) in ('tuple',)) \
+                or re.fullmatch(r'self\.in_names|\w*in_names', unparse(leaf)) is not None
+            r.sample({'in_names may be': form, 'a tuple / the given sequence': ok})
+            if ok:
+                r.ok()
+            else:
+                r.fail(f.qualname, f"in_names may be `{form}`", f.loc(leaf),
+                       "a bare string where a tuple of names is meant: each character of the field name is registered as an input key, "
+                       "so {'x': 5} binds the field `index`")
+    return r
+
+
+def rule_no_handlers_means_none(model: Model, rule_id: str = 'C18-R13') -> RuleResult:
+    """"No handlers" is ``None``.  An empty mapping (a registry that is filled after the class statement) or a callable handler object
+    with ``__len__`` is a handler specification like any other: testing its truth value drops it."""
+    r = RuleResult(rule_id, "a handler specification is dropped only when it is None (never for being falsy)", floor=1)
+    f = model.func('pane.convert.ConverterHandlers._process')
+    cfg = cfg_of(model, f)
+    nz = Normalizer(model, f, cfg, param_map=_pm(f))
+    r.analysed.add(f.qualname)
+    hp = f.params[-1] if f.params else 'handlers'
+    from ..cfg import returned_values
+    for (e, n) in returned_values(cfg):
+        if not (isinstance(e, ast.Tuple) and not e.elts):
+            continue
+        r.instances += 1
+        gov = _site_conditions(model, f, e)
+        texts = [(text, truth) for (_g, text, truth) in gov]
+        by_none = any(truth and re.fullmatch(rf'(None is \$?{hp}|\$?{hp} is None)', text) for (text, truth) in texts)
+        by_truth = [text for (text, truth) in texts if re.fullmatch(rf'(TRUTHY\(\$?{hp}\)|\$?{hp}|len\(\$?{hp}\).*)', text)]
+        r.sample({'empty handler set returned under': texts})
+        if by_none and not by_truth:
+            r.ok()
+        else:
+            r.fail(f.qualname, f"the empty handler set is returned under {[t_ for t_, _ in texts][:2]}", f.loc(e),
+                   "class A(PaneBase, custom=REGISTRY) with a registry that is still empty when the class is created (or a handler object "
+                   "that defines __len__) gets no handlers at all")
+    if r.instances == 0:
+        raise AnalysisError('ConverterHandlers._process: no return of the empty handler set found')
+    return r
+
+
+def rule_enum_writer_converts_value(model: Model, rule_id: str = 'C18-R14') -> RuleResult:
+    """An enum member is written by the converter that reads its value (C05-R3): on every path, not only for values that "are not
+    interchange data already" - a custom handler for ``int`` writes ``'ff'`` where the raw value is ``255``."""
+    r = RuleResult(rule_id, "every return of the enum writer is the inner converter's into_data of the member's value", floor=1)
+    f = model.func('pane.converters.EnumConverter.into_data')
+    cfg = cfg_of(model, f)
+    nz = Normalizer(model, f, cfg)
+    r.analysed.add(f.qualname)
+    from ..cfg import returned_values
+    for (e, n) in returned_values(cfg):
+        r.instances += 1
+        form = nz.expr(e, n)
+        r.sample({'returns': form})
+        gov = _site_conditions(model, f, e)
+        is_member = any(truth and re.fullmatch(r'isinstance\(VAL, \{self\.ty\}\)', text) for (_g, text, truth) in gov)
+        not_member = any((not truth) and re.fullmatch(r'isinstance\(VAL, \{self\.ty\}\)', text) for (_g, text, truth) in gov)
+        if re.fullmatch(r'self\.inner_conv\.into_data\(VAL\.value\)', form):
+            r.ok()
+        elif not_member and not is_member and 'value' not in form:
+            r.ok()      # something that is no member of the enum: written by its runtime type (the default writer)
+        else:
+            r.fail(f.qualname, f"returns {form[:60]}", f.loc(e),
+                   "the member's value is handed out without the converter in effect for its type: handlers apply on input only")
+    return r
+
+
+def rule_lazy_documents_read_inside_with(model: Model, rule_id: str = 'C19-R10') -> RuleResult:
+    """``yaml.load_all`` (like ``map`` / ``filter`` / a generator expression) reads the stream when it is iterated.  A reader that
+    opens a path itself has to exhaust it inside the ``with`` block: afterwards the file is closed."""
+    r = RuleResult(rule_id, "lazy loaders are exhausted inside the with block that owns the file", floor=1)
+    mod = model.module('pane.io')
+    lazy_calls = {'load_all', 'safe_load_all', 'parse', 'scan'}
+    n = 0
+    for f in model.all_functions():
+        if f.module is not mod or not isinstance(f.node, ast.FunctionDef):
+            continue
+        for w in [x for x in ast.walk(f.node) if isinstance(x, ast.With)]:
+            n += 1
+            for st in ast.walk(w):
+                if not (isinstance(st, (ast.Assign, ast.AnnAssign)) and getattr(st, 'value', None) is not None):
+                    continue
+                v = st.value
+                while isinstance(v, ast.Call) and unparse(v.func) in ('t.cast', 'typing.cast', 'cast') and len(v.args) == 2:
+                    v = v.args[1]
+                lazy = isinstance(v, ast.GeneratorExp) or (isinstance(v, ast.Call) and (
+                    (isinstance(v.func, ast.Attribute) and v.func.attr in lazy_calls) or (isinstance(v.func, ast.Name) and v.func.id in ('map', 'filter', 'zip', 'iter'))))
+                if not lazy:
+                    continue
+                tg = st.targets[0] if isinstance(st, ast.Assign) else st.target
+                if not isinstance(tg, ast.Name):
+                    continue
+                used_after = any(isinstance(x, ast.Name) and x.id == tg.id and isinstance(x.ctx, ast.Load) and x.lineno > (w.end_lineno or w.lineno)
+                                 for x in ast.walk(f.node))
+                if used_after:
+                    r.instances += 1
+                    r.analysed.add(f.qualname)
+                    r.fail(f.qualname, f"`{unparse(st)[:60]}` is consumed after the with block", f.loc(st),
+                           "for a path, the file the reader opened is closed when the first document is parsed: ValueError (I/O operation on "
+                           "closed file) instead of one value per document")
+    r.instances += 1
+    r.sample({'with blocks scanned': n})
+    r.ok()
+    return r
+
+
+def rule_default_lookup_through_mro(model: Model, rule_id: str = 'C17-R21') -> RuleResult:
+    """A subclass that re-annotates an inherited field without giving a new default keeps the base's default (as standard-library
+    dataclasses do): the class-body value of an annotated name is looked up with ``getattr`` (through the MRO), not in the class's own
+    namespace."""
+    r = RuleResult(rule_id, "the default of an annotated name is looked up on the class with getattr (inherited defaults are kept)", floor=1)
+    f = model.func('pane.classes._process')
+    cfg = cfg_of(model, f)
+    nz = Normalizer(model, f, cfg, param_map=_pm(f))
+    r.analysed.add(f.qualname)
+    for n in cfg.live_nodes():
+        for root in node_exprs(n):
+            for c in walk_no_nested(root):
+                if isinstance(c, ast.Call) and model.resolve(c.func, f.module, f) == 'pane.field.FieldSpec':
+                    d = next((k.value for k in c.keywords if k.arg == 'default'), None)
+                    if d is None:
+                        continue
+                    r.instances += 1
+                    form = nz.expr(d, n)
+                    r.sample({'default read as': form})
+                    if re.match(r'^getattr\(\$?cls\.', form) or re.match(r'^getattr\(\$?cls, ', form):
+                        r.ok()
+                    else:
+                        r.fail(f.qualname, f"default={form[:60]}", f.loc(c),
+                               "class Strict(Job): priority: int  (re-annotated, no new default) loses the default it inherits: data that omits "
+                               "the field is refused although the base accepts it")
+    if r.instances == 0:
+        raise AnalysisError('_process: FieldSpec(... default=...) not found')
+    return r
+
+
+def rule_spec_substitution_unconditional(model: Model, rule_id: str = 'C17-R22') -> RuleResult:
+    """``FieldSpec.replace_typevars`` always hands its type to ``util.replace_typevars``: a pre-test "has no type variables" built on
+    ``collect_typevars`` skips parametrised dataclasses (real classes, which typing's parameter collection ignores), so ``Inner[T]``
+    keeps its ``T`` in ``Outer[int]``."""
+    r = RuleResult(rule_id, "a field declaration substitutes type variables unconditionally (no pre-test on collected variables)", floor=1)
+    f = model.func('pane.field.FieldSpec.replace_typevars')
+    cfg = cfg_of(model, f)
+    r.analysed.add(f.qualname)
+    r.instances += 1
+    pre = [c for c in ast.walk(f.node) if isinstance(c, ast.Call) and re.search(r'collect_typevars|__parameters__', unparse(c.func))]
+    conds = [n for n in cfg.live_nodes() if n.kind == 'cond' and n.ast is not None and not re.search(r'self\.converter|_MISSING', unparse(n.ast))]
+    r.sample({'pre-tests': [unparse(c)[:50] for c in pre], 'branches': [unparse(n.ast)[:50] for n in conds]})
+    if pre:
+        r.fail(f.qualname, f"`{unparse(pre[0])[:50]}` decides whether to substitute", f.loc(pre[0]),
+               "fields typed Inner[T], List[Inner[T]], Optional[Inner[T]] keep the unbound T in Outer[int]: a string passes where an int is declared")
+    else:
+        r.ok()
+    return r
+
+
+def rule_top_level_scalar_bypass(model: Model, rule_id: str = 'C05-R14') -> RuleResult:
+    """``into_data(val)`` without a type returns an interchange scalar as it is: the value itself (a bool stays a bool), for every
+    instance of the scalar classes (also of a subclass: an IntFlag member), and only when no handlers are passed."""
+    r = RuleResult(rule_id, "the scalar bypass of into_data returns the value itself, under isinstance(val, <scalar classes>) and custom is None", floor=1)
+    f = model.func('pane.convert.into_data')
+    cfg = cfg_of(model, f)
+    nz = Normalizer(model, f, cfg, param_map=_pm(f))
+    r.analysed.add(f.qualname)
+    vp, tp = f.params[0], f.params[1]
+    from ..cfg import returned_values
+    found = False
+    for (e, n) in returned_values(cfg):
+        gov = _site_conditions(model, f, e)
+        texts = [(text, truth) for (_g, text, truth) in gov]
+        if not any(truth and re.fullmatch(rf'(None is \${tp}|\${tp} is None)', text) for (text, truth) in texts):
+            continue
+        form = nz.expr(e, n)
+        if '.into_data(' in form:
+            continue
+        found = True
+        r.instances += 1
+        inst = any(truth and re.fullmatch(rf'isinstance\(\${vp}, \{{.*\}}\)', text) for (text, truth) in texts)
+        r.sample({'bypass returns': form, 'under': texts})
+        if form == f'${vp}' and inst:
+            r.ok()
+        elif form != f'${vp}':
+            r.fail(f.qualname, f"the bypass returns {form[:60]}", f.loc(e),
+                   "a scalar is rewritten on the way out: True is written as 1 (int is listed before bool), so a bool does not stay a bool "
+                   "and Literal[True] refuses its own output")
+        else:
+            r.fail(f.qualname, f"the bypass is taken under {[t_ for t_, _ in texts]}", f.loc(e),
+                   "instances of subclasses of the scalar classes (an IntFlag member, a str subclass) no longer pass: the constructor raises "
+                   "TypeError for an argument from_data accepts")
+    if not found:
+        raise AnalysisError('into_data: the scalar bypass was not found')
+    return r
+
+
+def rule_value_or_list_records_member(model: Model, rule_id: str = 'C11-R13') -> RuleResult:
+    """``ValueOrList`` is the untagged union ``T | List[T]``: the wrapper records *which member* accepted the data (index 0: a single
+    value).  Guessing it from the value (``isinstance(v, list)``) is wrong whenever T's own values are lists."""
+    r = RuleResult(rule_id, "ValueOrList records which union member accepted the data (the constructor is told the member index)", floor=1)
+    f = model.func('pane.types.ValueOrListConverter.__init__')
+    r.analysed.add(f.qualname)
+    r.instances += 1
+    sup = next((c for c in ast.walk(f.node) if isinstance(c, ast.Call) and unparse(c.func) == 'super().__init__'), None)
+    if sup is None:
+        raise AnalysisError('ValueOrListConverter.__init__: super().__init__ not found')
+    ctor = next((k.value for k in sup.keywords if k.arg == 'constructor'), None)
+    ok = False
+    shown = unparse(ctor)[:80] if ctor is not None else None
+    if isinstance(ctor, ast.Lambda) and len(ctor.args.args) == 2:
+        idx = ctor.args.args[1].arg
+        ok = any(isinstance(x, ast.Name) and x.id == idx for x in ast.walk(ctor.body))
+    elif isinstance(ctor, ast.Name):
+        g = model.functions.get(model.resolve(ctor, f.module, f) or '') or model.functions.get(f'{f.qualname}.{ctor.id}')
+        if g is not None and len(g.params) == 2:
+            ok = any(isinstance(x, ast.Name) and x.id == g.params[1] and isinstance(x.ctx, ast.Load) for x in ast.walk(g.node))
+    r.sample({'constructor': shown, 'uses the member index': ok})
+    init = model.func('pane.types.ValueOrList.__init__')
+    a = init.node.args
+    guess = [unparse(x)[:60] for x in ast.walk(init.node) if isinstance(x, ast.Call) and isinstance(x.func, ast.Name) and x.func.id == 'isinstance']
+    if ok and not guess and not a.defaults:
+        r.ok()
+    else:
+        r.fail(f.qualname, f"constructor {shown}; ValueOrList.__init__ guesses with {guess}" if guess or a.defaults else f"constructor {shown} ignores the member index",
+               f.loc(sup), "for ValueOrList[List[int]] a flat list accepted by the first member (one value) is labelled as a list of values: "
+                           "equality, len(), iteration and into_data follow the wrong member")
+    return r
+
+
+def rule_array_element_type_as_declared(model: Model, rule_id: str = 'C02-R11') -> RuleResult:
+    """The numpy add-on hands the declared element type to the nested-sequence converter; the dtype table (``_dtype_map``) maps numpy
+    scalar classes for a *different* purpose and tests ``int`` before ``bool``: mapping a declared ``bool`` through it makes the element
+    converter the int converter (an arbitrary int accepted as a bool)."""
+    r = RuleResult(rule_id, "the array converter is built for the element type as declared (not passed through the numpy dtype table)", floor=1)
+    mod = model.module('pane.addons.numpy')
+    fs = [g for g in model.all_functions() if g.module is mod and g.name == 'numpy_converter_handler' and isinstance(g.node, ast.FunctionDef)]
+    fs = [g for g in fs if any(isinstance(c, ast.Call) and 'NestedSequenceConverter' in unparse(c.func) for c in ast.walk(g.node))]
+    if not fs:
+        raise AnalysisError('numpy_converter_handler (with numpy) not found')
+    f = fs[0]
+    r.analysed.add(f.qualname)
+    for c in ast.walk(f.node):
+        if isinstance(c, ast.Call) and 'NestedSequenceConverter' in unparse(c.func) and c.args:
+            r.instances += 1
+            arg = c.args[0]
+            mapped = None
+            if isinstance(arg, ast.Name):
+                for st in ast.walk(f.node):
+                    if isinstance(st, ast.Assign) and any(isinstance(tg, ast.Name) and tg.id == arg.id for tg in st.targets) \
+                            and any(isinstance(x, ast.Call) and unparse(x.func) == '_dtype_map' for x in ast.walk(st.value)) \
+                            and not any(isinstance(a_, ast.Return) for a_ in ancestors(st)):
+                        mapped = st
+            elif any(isinstance(x, ast.Call) and unparse(x.func) == '_dtype_map' for x in ast.walk(arg)):
+                mapped = arg
+            r.sample({'element type argument': unparse(arg)[:50], 'mapped through the dtype table': mapped is not None})
+            if mapped is None:
+                r.ok()
+            else:
+                r.fail(f.qualname, f"`{unparse(mapped)[:60]}` rewrites the declared element type", f.loc(mapped),
+                       "np.ndarray[Any, np.dtype[bool]] gets the int element converter (bool is a subclass of int and the table tests int "
+                       "first): [1, 0, 2] is accepted as an array of bools")
+    if r.instances == 0:
+        raise AnalysisError('numpy_converter_handler: NestedSequenceConverter(...) not found')
+    return r
